@@ -177,6 +177,29 @@ def replay_pspace(ob):
 
 def replay(ob):
     rp = ob.get('replay') or {}
+    if ob.get('unit', '').startswith('elem/__pow__') or ob.get('unit', '').startswith('elem/__ipow__'):
+        try:
+            odl = _import_odl()
+            import numpy as np
+            rng = np.random.default_rng(9)
+            for sp in (odl.rn(5), odl.cn(3), odl.uniform_discr(0, 1, 4), odl.rn(3) ** 2):
+                for p in list(range(-4, 13)) + [0.5, 2.5]:
+                    if isinstance(sp, odl.ProductSpace):
+                        a = rng.uniform(0.5, 2.0, (2, 3))
+                    else:
+                        a = rng.uniform(0.5, 2.0, sp.shape) + (1j * rng.uniform(0.5, 2.0, sp.shape) if sp.is_complex else 0)
+                    if not float(p).is_integer() and (isinstance(sp, odl.ProductSpace) or sp.is_complex):
+                        continue
+                    x = sp.element(a)
+                    y = x ** p
+                    z = x.copy()
+                    z **= p
+                    want = np.asarray(a) ** p
+                    if not np.allclose(np.asarray(y), want) or not np.allclose(np.asarray(z), want) or not np.allclose(np.asarray(x), a):
+                        return {'reproduced': True, 'detail': '%r: x ** %r = %r, x **= %r gives %r, entry-wise power %r' % (sp, p, np.asarray(y), p, np.asarray(z), want)}
+            return {'reproduced': False, 'detail': 'powers -4..12 agree with NumPy on 4 spaces'}
+        except Exception as e:
+            return {'reproduced': False, 'detail': 'replay harness error: %r' % (e,)}
     if ob.get('unit', '').startswith('pspace/'):
         try:
             return replay_pspace(ob)
